@@ -22,8 +22,10 @@ def run(ctx):
         "removed are exactly the tables merged in; remove_head has no other caller.  Holds for every interleaving of "
         "writers because each writer's own step order never leaves an entry reachable from no head.")
     ctx.clauses = ["save<add_head<remove_head on all paths", "merge saved before divergent heads are dropped",
-                   "heads dropped are the heads merged in", "who may remove a head"]
-    ctx.not_decided = ["merge_in's ancestor walk and squash thresholds", "lookup semantics (later save wins)"]
+                   "heads dropped are the heads merged in", "who may remove a head",
+                   "segment walk visits every ancestor of a queued segment; segments applied oldest first"]
+    ctx.not_decided = ["squash thresholds", "that num_entries-guided descent finds the common ancestor",
+                       "lookup semantics beyond application order"]
     ctx.assumptions = ["fs::write(\"\")/remove_file atomic per file"]
 
     check_order(ctx, "C21.a/segment-saved-before-head-added", TS + "save_table", MT + "save_in", TS + "add_head")
@@ -71,6 +73,7 @@ def run(ctx):
                    f"the table saved before dropping heads is not incremental(head)+merge_in: {show(t)[:220]}",
                    where=s.where())
 
+    rule_d(ctx)
     sites = F.all_calls_to(TS + "remove_head")
     ctx.anchor("C21.c", "remove_head call sites", sites, 2)
     for c in sites:
@@ -85,3 +88,81 @@ def run(ctx):
     for c in rm:
         ctx.ob("C21.c/file-deletions-in-stacked-table", f"{c.body.root}->{c.res}", c.body.root in allowed,
                allowed.get(c.body.root, "unexpected file deletion in the table store"), where=c.where())
+
+
+# ---------------------------------------------------------------------------
+# d. structural clauses of the segment walk (added after two agent-seeded changes were missed)
+
+def rule_d(ctx):
+    """merge_in / maybe_squash_with_ancestors walk parent links newest -> oldest:
+    d1. whenever a segment of the other chain is queued, the cursor is advanced to its parent before the walk can end
+        (otherwise deeper ancestors of the other head are silently dropped)
+    d2. queued segments are applied oldest first (reverse of the walk) and the table's own entries last, so a later save
+        of a key wins"""
+    from jjv.lib import alts, op_place, walk, term_leaves
+    F = ctx.F
+    # d1
+    fid = MT + "merge_in"
+    b = F.body(fid)
+    if ctx.anchor("C21.d", fid, 1 if b else 0, 1):
+        ctx.fn_seen(fid)
+        sl = F.slicer(fid)
+        defs, _ = b.defs
+        cursor = None
+        for l, ds in defs.items():
+            if len(ds) < 2:
+                continue
+            kinds = set()
+            for (bb, si, kind, payload) in ds:
+                t = sl._rvalue(payload, bb) if kind == "assign" else sl._call(payload, bb)
+                if any(lf[0] == "param" and lf[2] == "other" for lf in term_leaves(t)) and \
+                        not any(w[0] == "field" and w[3] == "parent_file" for w in walk(t)):
+                    kinds.add("init")
+                if any(w[0] == "field" and w[3] == "parent_file" for w in walk(t)):
+                    kinds.add("advance")
+            if kinds == {"init", "advance"}:
+                cursor = l
+        if ctx.anchor("C21.d", "cursor over the other head's ancestors", 1 if cursor is not None else 0, 1):
+            adv = set()
+            for (bb, si, kind, payload) in defs[cursor]:
+                t = sl._rvalue(payload, bb) if kind == "assign" else sl._call(payload, bb)
+                if any(w[0] == "field" and w[3] == "parent_file" for w in walk(t)):
+                    adv.add(bb)
+            pushes = [c for c in b.calls if not c.cleanup and name_matches(c.res or c.decl or "", "re:Vec.*::push$")]
+            ctx.anchor("C21.d", "segments queued in merge_in", pushes, 1)
+            for i, p in enumerate(pushes):
+                path = b.path_avoiding([p.target] if p.target is not None else [], b.return_blocks(), adv)
+                ctx.ob("C21.d/queued-segment-advances-cursor", f"{fid}#{i}", path is None,
+                       "after queuing a segment the cursor moves to its parent on every path" if path is None else
+                       "a segment of the other head is queued and the walk can end without visiting its ancestors: their "
+                       "entries are dropped from the merged table", where=p.where())
+    # d2
+    for fid in (MT + "merge_in", MT + "maybe_squash_with_ancestors"):
+        b = F.body(fid)
+        if not ctx.anchor("C21.d", fid, 1 if b else 0, 1):
+            continue
+        ctx.fn_seen(fid)
+        sl = F.slicer(fid, with_mutators=True)
+        adds = [c for c in b.calls if not c.cleanup and (c.res or "") == MT + "add_entries_from"]
+        ctx.anchor("C21.d", f"{fid}: add_entries_from calls", adds, 1)
+        loop_adds, self_adds = [], []
+        for c in adds:
+            t = sl.call_arg(c, 1)
+            names = [x[1] for x in term_calls(t)]
+            if any(name_matches(n, "re:Iterator::next$|::next$") for n in names):
+                loop_adds.append((c, names))
+            else:
+                self_adds.append(c)
+        for c, names in loop_adds:
+            has_rev = any(name_matches(n, "re:Iterator::rev$|::rev$") for n in names)
+            appended = any(name_matches(n, "re:Vec.*::push$|VecDeque.*::push_back$") for n in names)
+            prepended = any(name_matches(n, "re:Vec.*::insert$|VecDeque.*::push_front$") for n in names)
+            # the walk goes newest -> oldest: appended queues must be reversed, prepended ones must not
+            ok = (appended and has_rev and not prepended) or (prepended and not has_rev and not appended)
+            ctx.ob("C21.d/ancestors-applied-oldest-first", fid, ok,
+                   "segments collected newest->oldest are applied in reverse (oldest first)" if ok else
+                   "queued segments are applied newest first: an older value of a key overwrites a newer one", where=c.where())
+        for c in self_adds:
+            late = [x for x, _ in loop_adds if x.bb in b.after(c.bb)]
+            ctx.ob("C21.d/own-entries-applied-last", fid, not late, "the table's own entries are applied after all ancestors" if not late
+                   else "ancestor segments are applied after the table's own entries", where=c.where())
